@@ -62,6 +62,7 @@ pub enum Cat {
     Move,
     Serde,
     Shared,
+    CloneFrom,
 }
 
 pub struct Profile {
@@ -89,7 +90,7 @@ pub const PROFILES: &[Profile] = &[
         weights: &[
             (CreateSized, 8), (CreateSlice, 6), (CreateThin, 4), (CreateStr, 2), (CreateUninit, 2), (CreateLying, 1),
             (Clone, 14), (Convert, 10), (Raw, 6), (Union, 5), (Thin, 6), (Swap, 2), (Inspect, 5), (Cmp, 2), (Uniq, 5), (Cow, 4),
-            (Unwrap, 4), (ThinMut, 3), (Uninit, 3), (Drop, 16), (Mail, 5), (Move, 2), (Shared, 4),
+            (Unwrap, 4), (ThinMut, 3), (Uninit, 3), (Drop, 16), (Mail, 5), (Move, 2), (Shared, 4), (CloneFrom, 3),
         ],
         threads: &[(1, 50), (2, 25), (3, 15), (4, 10)],
         setup_ops: (3, 14),
@@ -164,7 +165,7 @@ pub const PROFILES: &[Profile] = &[
     },
     Profile {
         name: "C07",
-        weights: &[(CreateLying, 14), (CreateSlice, 10), (CreateThin, 8), (CreateSized, 6), (Cow, 10), (Unwrap, 6), (ThinMut, 8), (Cmp, 10), (Inspect, 8), (Clone, 10), (Convert, 5), (Thin, 4), (Union, 3), (Drop, 10)],
+        weights: &[(CreateLying, 14), (CreateSlice, 10), (CreateThin, 8), (CreateSized, 6), (Cow, 10), (Unwrap, 6), (ThinMut, 8), (Cmp, 10), (Inspect, 8), (Clone, 10), (Convert, 5), (Thin, 4), (Union, 3), (Drop, 10), (CloneFrom, 5)],
         threads: &[(1, 100)],
         setup_ops: (5, 22),
         par_ops: (0, 0),
@@ -863,6 +864,23 @@ impl<'a> G<'a> {
                 let d = self.pick(&e)?;
                 self.slots[d] = self.slots[s].take();
                 op(OpCode::MoveSlot, s, d, 0)
+            }
+            CloneFrom => {
+                if par {
+                    return None;
+                }
+                let src = self.of_kind(lo, hi, &[K::ArcP, K::OffP, K::Thin, K::Hs, K::Sl, K::UnionP, K::UnionQ]);
+                let s = self.pick(&src)?;
+                let sh = self.slots[s].unwrap();
+                let union = matches!(sh.kind, K::UnionP | K::UnionQ);
+                let dsts: Vec<usize> = if union { self.of_kind(lo, hi, &[K::UnionP, K::UnionQ]) } else { self.of_kind(lo, hi, &[sh.kind]) };
+                let dsts: Vec<usize> = dsts.into_iter().filter(|&d| d != s).collect();
+                let d = self.pick(&dsts)?;
+                let dh = self.slots[d].unwrap();
+                self.allocs[dh.alloc].owners -= 1;
+                self.allocs[sh.alloc].owners += 1;
+                self.set(d, sh.kind, sh.alloc);
+                op(OpCode::CloneFrom, d, s, 0)
             }
         }
     }
